@@ -51,7 +51,9 @@ class _dtype_value_context:
         )
 
     def __exit__(self, *args):
-        self.__class__._set_value(*self._orig_values.pop())
+        # Restore unconditionally (_set_value would skip slots whose previous value was None)
+        cls = self.__class__
+        cls._global_float_value, cls._global_double_value, cls._global_half_value = self._orig_values.pop()
         return False
 
 
